@@ -126,6 +126,11 @@ pub fn run(ctx: &Ctx) -> Report {
         if kind == 0 {
           let v: Vec<(u64, u64)> = obs.iter().map(|o| (o.ta >> sh_t, o.cell.unwrap())).collect();
           outs.push((format!("from_fixed_depth_cells(cap={:?})", cap), "M2", catch(move || from_moc2(RangeMOC2::<u64, Time<u64>, u64, Hpx<u64>>::from_fixed_depth_cells(dt, ds, v.into_iter(), cap)))));
+          // the same observations given as (microsecond, longitude, latitude): the centre of each cell
+          let v3: Vec<(u64, f64, f64)> = obs.iter().map(|o| { let (lon, lat) = cdshealpix::nested::center(ds, o.cell.unwrap()); (o.ta, lon, lat) }).collect();
+          if obs.iter().zip(v3.iter()).all(|(o, (_, lon, lat))| cdshealpix::nested::hash(ds, *lon, *lat) == o.cell.unwrap()) {
+            outs.push((format!("from_time_and_coos(cap={:?})", cap), "M2", catch(move || from_moc2(RangeMOC2::<u64, Time<u64>, u64, Hpx<u64>>::from_time_and_coos(dt, ds, v3.into_iter(), cap)))));
+          }
           // the same instants as degenerate ranges through the other builder
           let v2: Vec<(Range<u64>, u64)> = obs.iter().map(|o| (o.ta..o.tb, o.cell.unwrap())).collect();
           outs.push((format!("from_ranges_and_fixed_depth_cells(cap={:?})", cap), "M2", catch(move || from_moc2(RangeMOC2::<u64, Time<u64>, u64, Hpx<u64>>::from_ranges_and_fixed_depth_cells(dt, ds, v2.into_iter(), cap)))));
